@@ -772,6 +772,26 @@ func main() {
 		})
 	}
 	w("def retryRunningStatuses : List String := %s", leanList(retryStatuses))
+	// … and what a turn of the loop does before anything else (wait, then look whether the table was closed or released)
+	retryHead := []string{}
+	if fd := findFunc(teStage, "tableEngine", "tableGameOpen"); fd != nil {
+		done := false
+		ast.Inspect(fd.Body, func(n ast.Node) bool {
+			f, ok := n.(*ast.ForStmt)
+			if !ok || done {
+				return true
+			}
+			done = true
+			for i, st := range f.Body.List {
+				if i >= 2 {
+					break
+				}
+				retryHead = append(retryHead, src(st))
+			}
+			return false
+		})
+	}
+	w("def retryLoopHead : List String := %s", leanList(retryHead))
 	w("")
 
 	// ---- calcGamePlayerIndexes: the test that admits a player to the hand's list (every `if` around an append to the list)
